@@ -37,6 +37,24 @@ def _mentions_mask(node, var=None):
     return False
 
 
+def _through_predicates(facts, meths):
+    """facts with calls of argument-less predicate methods of the class (`self._sees_private_values()`, one `return <expr>`)
+    replaced by what the returned expression implies (`bool(A or B)` false -> A false, B false)"""
+    from ..engine.cfg import implied_facts
+
+    out = []
+    for e, pol in facts:
+        out.append((e, pol))
+        if isinstance(e, ast.Call) and not e.args and not e.keywords and isinstance(e.func, ast.Attribute) and unparse(e.func.value) == "self" and e.func.attr in meths:
+            rs = [r for r in walk_local(meths[e.func.attr]) if isinstance(r, ast.Return) and r.value is not None]
+            if len(rs) == 1:
+                v = rs[0].value
+                if isinstance(v, ast.Call) and call_name(v) == "bool" and len(v.args) == 1:
+                    v = v.args[0]
+                out += list(implied_facts(v, pol))
+    return out
+
+
 def _uncopy(e):
     """dict(x) / x.copy() / {**x}: the mapping whose content is copied"""
     if isinstance(e, ast.Call) and call_name(e) == "dict" and len(e.args) == 1 and not e.keywords:
@@ -110,6 +128,8 @@ def check(ctx):
             if isinstance(a_, (ast.For, ast.While)):
                 break
             if isinstance(a_, ast.Try) and any(d.ast is x or lexically_inside(d.ast, x) for x in a_.body) and any(h_.type is None or any(t_ in unparse(h_.type) for t_ in ("KeyError", "LookupError", "Exception", "BaseException")) for h_ in a_.handlers):
+                protected = True
+            if isinstance(a_, ast.With) and any(isinstance(it.context_expr, ast.Call) and (call_name(it.context_expr) or "").split(".")[-1] == "suppress" and any(unparse(x_) in ("KeyError", "LookupError", "Exception", "BaseException") for x_ in it.context_expr.args) for it in a_.items):
                 protected = True
         guarded = any(pol and isinstance(e, ast.Compare) and isinstance(e.ops[0], ast.In) for e, pol in facts_at(cfg, d) if "NotImplemented" not in unparse(e))
         ctx.ob("R1", st, f"`{short(d.ast, 60)}` in the restore loop cannot abort it (the key may have been deleted inside the scope: absence is tolerated, so the remaining variables are still restored)", (not del_raises) or protected or guarded, key="swap|restore-step-can-abort", where=loc(d.ast))
@@ -271,7 +291,9 @@ def check(ctx):
         ctx.ob("R3", f"{rel}:{q}.run", f"the inherited view is installed before any other environment access ({len(envuse)} uses)", ok, key=f"{q}|env-use-before-install", where=loc(run))
     ied = mod.cls("InternalEnvironDict")
     im = class_methods(ied)
-    ok = "_local" in im and "self._thread_local.__dict__" in unparse(im["_local"]) and "copy()" in unparse(im.get("get_local_overrides", ast.Pass()))
+    glo = im.get("get_local_overrides")
+    copies = glo is not None and any(isinstance(r, ast.Return) and r.value is not None and _uncopy(r.value) is not r.value and "_local" in unparse(_uncopy(r.value)) for r in walk_local(glo))
+    ok = "_local" in im and "self._thread_local.__dict__" in unparse(im["_local"]) and copies
     ctx.ob("R3", f"{EN}:InternalEnvironDict", "the override layer is a threading.local dict; the view handed to a worker is a copy", ok, key="ied|local-shape")
     slo = im.get("set_local_overrides")
     ok = slo is not None and "clear()" in unparse(slo) and "update(" in unparse(slo)
@@ -309,7 +331,7 @@ def check(ctx):
                 facts = []
                 guarded = False
                 for nd in c4.nodes_of(n):
-                    fa = facts_at(c4, nd)
+                    fa = _through_predicates(facts_at(c4, nd), meths)
                     facts = facts_text(fa)
                     guarded = any((not pol) and unparse(e) in NO_OVERRIDES for e, pol in fa)
                 ctx.ob("R4", f"{EN}:Env.{name}", f"`{short(n, 60)}`: a mapping computed from the thread's view (swaps included) is stored in the shared attribute {unparse(tgt)} only when the thread has no local overrides", guarded, key=f"{name}|thread-local-into-shared|{unparse(tgt)}", where=loc(n), detail="facts: " + "; ".join(facts))
@@ -317,7 +339,7 @@ def check(ctx):
     dcfg = CFG(dt)
     for n in dcfg.nodes:
         if n.kind == "stmt" and isinstance(n.ast, ast.Return) and n.ast.value is not None and unparse(_uncopy(n.ast.value)) == "self._detyped":
-            fa = facts_at(dcfg, n)
+            fa = _through_predicates(facts_at(dcfg, n), meths)
             facts = facts_text(fa)
             guarded = any((not pol) and unparse(e) in NO_OVERRIDES for e, pol in fa)
             ctx.ob("R4", f"{EN}:Env.detype", "the shared cache is handed out only to a thread without local overrides", guarded, key="detype|shared-cache-read-with-overrides", where=loc(n.ast), detail="facts: " + "; ".join(facts))
